@@ -2,8 +2,8 @@ INIT Init
 NEXT Next
 CONSTANTS
   FlatLen = 4
-  Mode = "misc"
-  Small = FALSE
+  Mode = "nest"
+  Small = TRUE
 INVARIANT Sane
 INVARIANT ImplSatisfiesProperty
 INVARIANT ImplShape
